@@ -83,10 +83,16 @@ theorem some_thread_can_move {Thread : Type} (s : Sys Thread) (hd : s.Discipline
     ∃ t ∈ S, ∃ l, s.waits t = some l ∧ ∀ t' ∈ S, l ∉ s.holds t' :=
   Rv.Lemmas.Locks.some_thread_can_move s hd S hne hblocked
 
-/-- stopping the cache never blocks: `stop` contains no blocking acquisition and
-    no channel wait (it closes a channel and unsubscribes). -/
+/-- stopping the cache never blocks: `stop` and what it calls contain no channel
+    wait, no blocking I/O and no blocking acquisition except of the innermost
+    lock class `mu` (the Event's own subscriber mutex). An acquisition of `mu`
+    always completes: by the rank discipline established above (`evOk`), a
+    holder of `mu` never acquires another lock, never waits on a channel and
+    never runs a caller-supplied function while holding it, so it releases `mu`
+    after finitely many of its own steps. -/
 def noBlocking : Prog → Bool
-  | .lock _ _ | .rlock _ _ | .chanSend _ _ | .chanRecv _ _ | .unknown _ _ => false
+  | .lock cls _ | .rlock cls _ => rank cls = some 2
+  | .chanSend _ _ | .chanRecv _ _ | .unknown _ _ => false
   | .seq a b | .alt a b => noBlocking a && noBlocking b
   | .loop p | .catchBrk p => noBlocking p
   | _ => true
